@@ -278,6 +278,24 @@ func runC04(c c04Case) (res c04Result) {
 		if p.I.cd.HandshakePattern().Name != p.R.cd.HandshakePattern().Name {
 			res.disagree = append(res.disagree, "next_pattern")
 		}
+		// What the two ConnData objects keep for the next connection: after
+		// a version >= 2 handshake each holds the peer's true static key
+		// (and hence the KK pattern and the key-derived SID); after an older
+		// one an XX party holds none.
+		for _, d := range []struct {
+			name string
+			pt   *party
+			peer *party
+			ver  byte
+		}{{"initiator", p.I, p.R, si.Version}, {"responder", p.R, p.I, sr.Version}} {
+			k := d.pt.cd.RemoteKey()
+			switch {
+			case d.ver >= 2 && (k == nil || !k.IsEqual(d.peer.static.PubKey())):
+				res.disagree = append(res.disagree, d.name+"_conndata_did_not_store_the_peer_key")
+			case d.ver < 2 && c.Cfg.Pattern == "XX" && k != nil:
+				res.disagree = append(res.disagree, d.name+"_conndata_stored_a_key_below_version_2")
+			}
+		}
 		if (len(p.I.gotRemote) > 0) != (len(p.R.gotRemote) > 0) {
 			res.disagree = append(res.disagree, "on_remote_static_fired_on_one_side_only")
 		}
